@@ -247,6 +247,16 @@ def run_randomised(ctx):
                     ctx.violation("C12:EOF:randomised:differs-from-in-memory:compute=%s" % compute,
                                   "EOF(solver='randomized', compute=%s) on dask input (%s, gap %.1f after mode %d): singular values off by %.3g (relative), "
                                   "patterns off by %.3g from the in-memory fit" % (compute, lname, tail, k, es, ec), replay)
+                else:
+                    # orientation too: wherever the sign convention is decisive (largest positive and largest negative loading of the in-memory mode
+                    # differ by more than 1 %), the dask fit - computed in fit or afterwards - has the in-memory fit's orientation
+                    for j in range(k):
+                        mx, mn = float(rc[:, j].max()), float(-rc[:, j].min())
+                        if abs(mx - mn) > 0.01 * max(mx, mn) and float((gc[:, j] * rc[:, j]).sum()) < 0:
+                            ctx.violation("C12:EOF:randomised:orientation:compute=%s" % compute,
+                                          "EOF(solver='randomized', compute=%s) on dask input (%s): mode %d comes out with the opposite orientation of the in-memory fit "
+                                          "(its largest loadings are %.3f and -%.3f: the sign convention is decisive)" % (compute, lname, j + 1, mx, mn), replay)
+                            break
                 ctx.traces += 1
     ctx.oblige("oracle:randomised dask fit (computed or deferred) equals the in-memory fit on spectra with a gap", "oracle",
                not [v for v in ctx.violations if ":randomised:" in v["key"]])
